@@ -29,19 +29,34 @@ Rep3 == { << >>, << A, COMMA, SEMI, SP >>, << QUOTE, BSL, A, BSL >> }
 \* attributes x 5 choices: 31 + 31^2 = 1 k x 2 nl x 49 faults = 97 k
 \* value4: one link, ONE attribute, every value up to length 4 (C16's exhaustive bound): 4 681 values
 \* x 2 kinds x 2 targets x 2 nl = 37 k states
-Values1 == IF Mode = "value" THEN Strs(2)
+Values1 == IF Mode = "keys" THEN { << A >> }
+           ELSE IF Mode = "value" THEN Strs(2)
            ELSE IF Mode = "value4" THEN Strs(4)
            ELSE IF Mode = "value3" THEN Strs(3)
            ELSE Rep3
 Values2 == IF Mode = "value" THEN Strs(2) ELSE IF Mode = "value3" THEN Rep5 ELSE Values1
-Targets == IF Mode \in {"value", "value3", "value4"} THEN { << >>, << A, SEMI, LT, QUOTE, COMMA >> }
+Targets == IF Mode = "keys" THEN { << 47, A >> }
+           ELSE IF Mode \in {"value", "value3", "value4"} THEN { << >>, << A, SEMI, LT, QUOTE, COMMA >> }
            ELSE IF Mode = "struct" THEN { << >>, << A, COMMA, SEMI, QUOTE, LT, SP >> }
            ELSE { << 47, A >> }
-Keys == { << 107 >> }
+\* MODE = keys: one link, up to three attributes, every key the crate names (RFC 6690 / 8288 / 9176
+\* attribute names) plus one it does not, in every order and with repetitions: 21 + 21^2 + 21^3 = 9 723
+\* documents x 2 nl.  The writer and the parsers are generic: nothing may depend on which attribute it is.
+Str2Codes(str) == CASE str = "rel" -> << 114, 101, 108 >> [] str = "anchor" -> << 97, 110, 99, 104, 111, 114 >>
+                    [] str = "hreflang" -> << 104, 114, 101, 102, 108, 97, 110, 103 >> [] str = "media" -> << 109, 101, 100, 105, 97 >>
+                    [] str = "title" -> << 116, 105, 116, 108, 101 >> [] str = "title*" -> << 116, 105, 116, 108, 101, 42 >>
+                    [] str = "type" -> << 116, 121, 112, 101 >> [] str = "rt" -> << 114, 116 >> [] str = "if" -> << 105, 102 >>
+                    [] str = "sz" -> << 115, 122 >> [] str = "v" -> << 118 >> [] str = "ct" -> << 99, 116 >>
+                    [] str = "obs" -> << 111, 98, 115 >> [] str = "ep" -> << 101, 112 >> [] str = "lt" -> << 108, 116 >>
+                    [] str = "d" -> << 100 >> [] str = "base" -> << 98, 97, 115, 101 >> [] str = "gp" -> << 103, 112 >>
+                    [] str = "et" -> << 101, 116 >> [] str = "k" -> << 107 >> [] str = "REL" -> << 82, 69, 76 >>
+NamedKeys == { Str2Codes(x) : x \in { "rel", "anchor", "hreflang", "media", "title", "title*", "type", "rt", "if", "sz", "v", "ct",
+                                      "obs", "ep", "lt", "d", "base", "gp", "et", "k", "REL" } }
+Keys == IF Mode = "keys" THEN NamedKeys ELSE { << 107 >> }
 Kinds == IF Mode \in {"value", "value3", "value4"} THEN { "attr", "quoted" } ELSE { "attr" }
-U32s == IF Mode \in {"value", "value3"} THEN { << 48 >>, << 52, 48 >> } ELSE { << 52, 48 >> }
-MaxLinks == IF Mode \in {"value", "value3", "value4"} THEN 1 ELSE IF Mode = "struct" THEN 3 ELSE 2
-MaxAttrs == IF Mode = "value4" THEN 1 ELSE 2
+U32s == IF Mode \in {"value", "value3"} THEN { << 48 >>, << 52, 48 >> } ELSE IF Mode = "keys" THEN {} ELSE { << 52, 48 >> }
+MaxLinks == IF Mode \in {"value", "value3", "value4", "keys"} THEN 1 ELSE IF Mode = "struct" THEN 3 ELSE 2
+MaxAttrs == IF Mode = "value4" THEN 1 ELSE IF Mode = "keys" THEN 3 ELSE 2
 NLs == IF Mode = "value3" THEN { FALSE } ELSE BOOLEAN
 MaxCalls == 24
 Faults == IF Mode = "fault"
